@@ -121,13 +121,15 @@ pub const OP_RECEIVER: u32 = 16;
 pub const OP_LISTENER: u32 = 32;
 pub const OP_SYNC: u32 = 64;
 pub const OP_LIFETIME: u32 = 128;
+/// a call whose pending reply the application drops when the clean cause strikes
+pub const OP_CALL_DROP: u32 = 256;
 pub const OP_ALL: u32 = 255;
 
 struct Trigger {
     stage_tx: mpsc::UnboundedSender<()>,
 }
 
-fn make(case: &Case) -> (Vec<ClientCfg>, Vec<(String, App)>, Rc<RefCell<Option<oneshot::Sender<()>>>>, mpsc::UnboundedReceiver<()>) {
+fn make(case: &Case) -> (Vec<ClientCfg>, Vec<(String, App)>, Rc<RefCell<Option<oneshot::Sender<()>>>>, mpsc::UnboundedReceiver<()>, Rc<RefCell<Option<oneshot::Sender<()>>>>) {
     let mut victim = ClientCfg::new(case.transport, case.minor);
     if case.broker_side {
         victim.broker_fault = case.fault.clone();
@@ -142,6 +144,9 @@ fn make(case: &Case) -> (Vec<ClientCfg>, Vec<(String, App)>, Rc<RefCell<Option<o
     // peer -> victim: ids of the peer's service and lifetime scope
     let (svc_tx, svc_rx) = oneshot::channel::<ServiceId>();
     let (svc_tx2, svc_rx2) = oneshot::channel::<ServiceId>();
+    let (svc_tx3, svc_rx3) = oneshot::channel::<ServiceId>();
+    let (drop_tx, drop_rx) = oneshot::channel::<()>();
+    let drop_sig = Rc::new(RefCell::new(Some(drop_tx)));
     let (life_tx, life_rx) = oneshot::channel::<aldrin::LifetimeId>();
     // victim -> peer: channel ends
     let (snd_tx, snd_rx) = oneshot::channel::<aldrin::low_level::UnboundReceiver>();
@@ -173,6 +178,7 @@ fn make(case: &Case) -> (Vec<ClientCfg>, Vec<(String, App)>, Rc<RefCell<Option<o
             };
             let _ = svc_tx.send(svc.id());
             let _ = svc_tx2.send(svc.id());
+            let _ = svc_tx3.send(svc.id());
             let scope = match h.create_lifetime_scope().await {
                 Ok(s) => s,
                 Err(e) => return lenient(e, "create scope"),
@@ -192,7 +198,7 @@ fn make(case: &Case) -> (Vec<ClientCfg>, Vec<(String, App)>, Rc<RefCell<Option<o
                 }
             }
             // hold the victim's call (if any) unanswered until told to stop
-            let mut held_call = None;
+            let mut held_call = Vec::new();
             let mut stop = peer_stop_rx;
             loop {
                 enum Ev {
@@ -211,7 +217,7 @@ fn make(case: &Case) -> (Vec<ClientCfg>, Vec<(String, App)>, Rc<RefCell<Option<o
                 .await;
                 match ev {
                     Ev::Stop | Ev::Call(None) => break,
-                    Ev::Call(Some(c)) => held_call = Some(c),
+                    Ev::Call(Some(c)) => held_call.push(c),
                 }
             }
             // the peer itself is unaffected by whatever happened to the victim
@@ -280,6 +286,30 @@ fn make(case: &Case) -> (Vec<ClientCfg>, Vec<(String, App)>, Rc<RefCell<Option<o
                 Err(e) if ended_ok(&e) => Ok(()),
                 Err(e) => Err(format!("pending call ended with {e:?}")),
             }
+        }
+    });
+    let app_shuts_down = case.cause == Cause::HandleShutdown;
+    victim_task!("v-call-drop", OP_CALL_DROP, |h: Handle, stage: Rc<dyn Fn()>| {
+        let svc_rx3 = svc_rx3;
+        let drop_rx = drop_rx;
+        async move {
+            let Ok(sid) = svc_rx3.await else { return Ok(()) };
+            let proxy = match h.create_proxy(sid).await {
+                Ok(p) => p,
+                Err(e) if ended_ok(&e) => return Ok(()),
+                Err(e) => return Err(format!("create_proxy: {e:?}")),
+            };
+            let pending = proxy.call(2, 6u32, None);
+            stage();
+            // the application loses interest in the reply at the moment the client is told to stop;
+            // with Handle::shutdown as the cause it is the application itself that says so and
+            // then lets go of everything (`handle.shutdown(); drop(reply);`)
+            let _ = drop_rx.await;
+            if app_shuts_down {
+                h.shutdown();
+            }
+            drop(pending);
+            Ok(())
         }
     });
     victim_task!("v-service", OP_SERVICE, |h: Handle, stage: Rc<dyn Fn()>| async move {
@@ -417,7 +447,7 @@ fn make(case: &Case) -> (Vec<ClientCfg>, Vec<(String, App)>, Rc<RefCell<Option<o
         }
     });
     drop(trig);
-    (vec![victim, peer], apps, peer_stop, stage_rx)
+    (vec![victim, peer], apps, peer_stop, stage_rx, drop_sig)
 }
 
 fn v(clause: &str, detail: String) -> Option<(String, String)> {
@@ -426,7 +456,7 @@ fn v(clause: &str, detail: String) -> Option<(String, String)> {
 
 /// Returns (violation, number of transport operations of the victim).
 pub fn run_case(case: &Case, ch: &mut Chooser) -> (Option<(String, String)>, u64) {
-    let (clients, apps, peer_stop, mut stage_rx) = make(case);
+    let (clients, apps, peer_stop, mut stage_rx, drop_sig) = make(case);
     let mut b = Bench::with_options(&clients, apps, case.cause == Cause::HandleShutdown);
     // phase 1: run until quiescent; a clean cause strikes as soon as `stage` of the victim's pending
     // operations are set up (stage 0 = immediately after connecting)
@@ -438,13 +468,25 @@ pub fn run_case(case: &Case, ch: &mut Chooser) -> (Option<(String, String)>, u64
             stages += 1;
         }
         let connected = b.log.borrow().app_started;
+        if connected && (case.cause == Cause::None || case.cause == Cause::Fault) {
+            // no clean cause strikes: the application loses interest in its reply right away
+            if let Some(tx) = drop_sig.borrow_mut().take() {
+                let _ = tx.send(());
+            }
+        }
         let ready = b.exec.ready();
         if !struck && connected && (stages >= case.stage || ready.is_empty()) {
             struck = true;
+            if let Some(tx) = drop_sig.borrow_mut().take() {
+                let _ = tx.send(());
+            }
             match case.cause {
                 Cause::HandleShutdown => {
-                    if let Some(h) = b.victim_handle.borrow().as_ref() {
-                        h.shutdown();
+                    // (with a dropped-reply task the application itself calls shutdown, see there)
+                    if case.ops & OP_CALL_DROP == 0 {
+                        if let Some(h) = b.victim_handle.borrow().as_ref() {
+                            h.shutdown();
+                        }
                     }
                 }
                 Cause::BrokerShutdown => b.broker_shutdown(),
@@ -558,7 +600,10 @@ pub fn run_case(case: &Case, ch: &mut Chooser) -> (Option<(String, String)>, u64
 }
 
 pub fn run(tier: Tier) -> ! {
-    let rep = Reporter::new("C15", "taskmc", tier, "fault_enumeration");
+    let rep = std::sync::Arc::new(Reporter::new("C15", "taskmc", tier, "fault_enumeration"));
+    // an execution that never returns (endless loop inside one poll of the subject) becomes a verdict
+    let wd = mcx::watchdog::ExecWatchdog::start(rep.clone(), "termination/poll-never-returns", Duration::from_secs(30));
+    let label_of = |c: &Case| std::sync::Arc::new(json!({"scenario": "termination", "case": format!("{c:?}"), "case_json": c.to_json()}));
     let samples = Samples::new(6);
     let d = tier.pick(1, 2);
     let executions = AtomicU64::new(0);
@@ -568,9 +613,9 @@ pub fn run(tier: Tier) -> ! {
     let mut distinct = 0u64;
     let mut cases: Vec<Case> = Vec::new();
     let op_sets: Vec<u32> = if tier == Tier::Thorough {
-        vec![OP_ALL, OP_CALL | OP_SYNC, OP_SENDER | OP_RECEIVER, OP_SERVICE | OP_EVENTS | OP_LISTENER, OP_LIFETIME | OP_CALL]
+        vec![OP_ALL, OP_CALL | OP_SYNC, OP_SENDER | OP_RECEIVER, OP_SERVICE | OP_EVENTS | OP_LISTENER, OP_LIFETIME | OP_CALL, OP_CALL_DROP | OP_SYNC, OP_ALL | OP_CALL_DROP]
     } else {
-        vec![OP_ALL, OP_SENDER | OP_RECEIVER | OP_CALL]
+        vec![OP_ALL, OP_SENDER | OP_RECEIVER | OP_CALL, OP_CALL_DROP | OP_SYNC]
     };
     let transports: Vec<(Transport, u32)> = if tier == Tier::Thorough {
         vec![(Transport::Unbounded, 20), (Transport::Bounded(1), 20), (Transport::Unbounded, 14), (Transport::Bounded(2), 17)]
@@ -585,7 +630,10 @@ pub fn run(tier: Tier) -> ! {
             let mut probe = base.clone();
             probe.cause = Cause::HandleShutdown;
             probe.stage = 99;
-            let (_, n_ops) = run_case(&probe, &mut ch);
+            let (_, n_ops) = {
+                let _g = wd.enter(&label_of(&probe), &[]);
+                run_case(&probe, &mut ch)
+            };
             for k in 0..=n_ops {
                 for kind in [FaultKind::Error, FaultKind::Eof, FaultKind::WriteHalf] {
                     let mut c = base.clone();
@@ -600,7 +648,10 @@ pub fn run(tier: Tier) -> ! {
             probe.cause = Cause::HandleShutdown;
             probe.stage = 99;
             probe.broker_side = true;
-            let (_, n_broker_ops) = run_case(&probe, &mut ch);
+            let (_, n_broker_ops) = {
+                let _g = wd.enter(&label_of(&probe), &[]);
+                run_case(&probe, &mut ch)
+            };
             for k in 0..=n_broker_ops {
                 for kind in [FaultKind::Error, FaultKind::WriteHalf] {
                     let mut c = base.clone();
@@ -619,7 +670,10 @@ pub fn run(tier: Tier) -> ! {
                 let mut probe = base.clone();
                 probe.cause = cause;
                 probe.stage = n_tasks;
-                let (_, n) = run_case(&probe, &mut ch);
+                let (_, n) = {
+                    let _g = wd.enter(&label_of(&probe), &[]);
+                    run_case(&probe, &mut ch)
+                };
                 let kinds: &[FaultKind] = if tier == Tier::Thorough { &[FaultKind::WriteHalf, FaultKind::Error] } else { &[FaultKind::WriteHalf] };
                 for k in 0..=n {
                     for kind in kinds {
@@ -651,8 +705,10 @@ pub fn run(tier: Tier) -> ! {
         if std::env::var("C15_TRACE").is_ok() {
             eprintln!("case {i}: {case:?}");
         }
+        let label = label_of(case);
         let st = explore(&cfg, |ch: &mut Chooser| {
             executions.fetch_add(1, Ordering::Relaxed);
+            let _g = wd.enter(&label, ch.prefix());
             match mcx::catch(|| run_case(case, ch)) {
                 Ok((None, _)) => RunOutcome::Continue,
                 Ok((Some((clause, detail)), _)) => {
@@ -695,6 +751,7 @@ pub fn run(tier: Tier) -> ! {
     cov.insert("deviation_bound".into(), json!(d));
     cov.insert("case_list".into(), json!(per));
     cov.insert("samples".into(), json!(samples.take()));
+    wd.stop();
     rep.finish(
         cov,
         vec![
@@ -708,6 +765,10 @@ pub fn replay(w: &serde_json::Value) -> ! {
     let case = Case::from_json(&w["case_json"]);
     let choices: Vec<u32> = w["choices"].as_array().map(|a| a.iter().map(|x| x.as_u64().unwrap_or(0) as u32).collect()).unwrap_or_default();
     println!("replaying case {case:?} with {} choices", choices.len());
+    let rep = std::sync::Arc::new(Reporter::new("C15", "taskmc", Tier::Quick, "fault_enumeration"));
+    let wd = mcx::watchdog::ExecWatchdog::start(rep, "termination/poll-never-returns", Duration::from_secs(30));
+    let label = std::sync::Arc::new(json!({"scenario": "termination", "case": format!("{case:?}"), "case_json": case.to_json()}));
+    let _g = wd.enter(&label, &choices);
     let mut verdicts = Vec::new();
     for _ in 0..2 {
         let mut ch = Chooser::new(&choices);
